@@ -486,3 +486,111 @@ Proof.
     replace (old + len R - old) with (len R) by lia.
     rewrite HM, HW. f_equal. f_equal. rewrite HT. apply Hres. reflexivity.
 Qed.
+
+(* ---- coap_remove_option ---- *)
+
+Lemma ed_opt_enc_len2 d v : 13 <= d -> 2 <= len (opt_enc d v).
+Proof.
+  intros H. rewrite opt_enc_len. unfold opt_encode_size.
+  pose proof (ed_ext_size_range (len v)). pose proof (len_nonneg v).
+  assert (1 <= ext_size d) by (unfold ext_size; repeat case_if; lia). lia.
+Qed.
+
+Lemma ed_b_remove_refines q n :
+  ed_mwf (p_msg q) -> 0 <= n ->
+  ed_b_remove (ed_of_pdu q) n =
+  Some (fst (ed_remove q n), ed_of_pdu (snd (ed_remove q n))).
+Proof.
+  intros W Hn. pose proof W as [Htok Hok Hasc]. unfold ed_b_remove, ed_remove.
+  destruct (ed_split_first (fun k => k =? n) (m_opts (p_msg q)))
+    as [Hall|(l1 & k & w & l2 & Ho & Hsf & Hst)].
+  { destruct (ed_search_none q (fun k => k =? n) W Hall) as [pr ->].
+    rewrite ed_find_none by assumption. reflexivity. }
+  assert (k = n) by lia. subst k.
+  rewrite (ed_search_found q (fun k => k =? n) l1 n w l2 W Ho Hsf Hst).
+  cbn [eh_suf eh_pos eh_st].
+  assert (Hfind : ed_find n (m_opts (p_msg q)) = Some w)
+    by (rewrite Ho; apply ed_find_split; assumption).
+  rewrite Hfind. cbn [fst snd].
+  assert (Hasc' := Hasc). rewrite Ho in Hasc'. apply ed_ascending_app in Hasc'.
+  destruct Hasc' as [Ha1 Ha2]. cbn [ascending fst] in Ha2. destruct Ha2 as [Hpk Ha3].
+  assert (Hok' := Hok). rewrite Ho in Hok'. apply ed_forall_app_inv in Hok'.
+  destruct Hok' as (Hok1 & [Hk Hw] & Hok2). cbn [fst snd] in Hk, Hw.
+  pose proof (ed_ascending_lastn l1 0 Ha1) as Hp0.
+  set (p1 := ed_lastn 0 l1) in *. set (d := n - p1).
+  set (PA := payload_area (m_payload (p_msg q))).
+  set (TA := token_area (m_token (p_msg q))).
+  rewrite opt_parse_enc by lia.
+  set (X := opt_enc d w).
+  assert (HX : len X = opt_encode_size d (len w)) by apply opt_enc_len.
+  pose proof (ed_opt_enc_pos d w) as HX1. fold X in HX1.
+  assert (Hbuf : eb_buf (ed_of_pdu q) = (TA ++ opts_enc 0 l1) ++ X ++ opts_enc n l2 ++ PA).
+  { rewrite ed_buf_of_pdu, Ho, ed_opts_enc_app. cbn [opts_enc]. fold p1 d TA PA X.
+    rewrite <- !app_assoc. reflexivity. }
+  assert (Hpos : take (len TA + len (opts_enc 0 l1)) (eb_buf (ed_of_pdu q)) = TA ++ opts_enc 0 l1).
+  { rewrite Hbuf, <- len_app. apply take_app_exact. }
+  rewrite Hpos.
+  rewrite Ho, ed_remove_first_split by assumption.
+  destruct l2 as [|[k2 w2] l3].
+  - (* the last option *)
+    cbn [opts_enc app]. rewrite ed_it_next_tail by apply ed_payload_tail_ok.
+    fold X. rewrite <- HX. rewrite len_app.
+    replace (len X + len PA - len X) with (len PA) by lia.
+    assert (Hres : ed_set_maxopt
+              (ed_set_buf (ed_of_pdu q) ((TA ++ opts_enc 0 l1) ++ PA)
+                          (ed_shift_data (ed_of_pdu q) (- len X)))
+              (eb_maxopt (ed_of_pdu q) - d) = ed_of_pdu (set_opts q (l1 ++ []))).
+    { apply ed_of_pdu_set_opts'.
+      - rewrite app_nil_r, <- app_assoc. reflexivity.
+      - rewrite ed_shift_data_of_pdu. destruct (m_payload (p_msg q)); [reflexivity|].
+        rewrite Hbuf. cbn [opts_enc app]. rewrite !len_app. lia.
+      - rewrite ed_maxopt_of_pdu, Ho, app_nil_r.
+        change (ed_lastn 0 (l1 ++ [(n, w)]) - d = ed_lastn 0 l1).
+        rewrite ed_lastn_app, ed_lastn_cons, ed_lastn_nil. subst d p1. lia. }
+    destruct (len PA =? 0) eqn:Ep.
+    + assert (HPA : PA = []).
+      { destruct PA; [reflexivity|]. rewrite len_cons in Ep. pose proof (len_nonneg PA). lia. }
+      rewrite HPA in *. rewrite ed_take_0. rewrite <- Hres. reflexivity.
+    + destruct (ed_move_down X PA) as (M & HM & HT). rewrite HM, HT. rewrite <- Hres. reflexivity.
+  - (* an option follows: its header takes the combined delta *)
+    cbn [ascending fst] in Ha3. destruct Ha3 as [Hnk Ha4].
+    inversion Hok2 as [|? ? [Hk2 Hw2] Hok3]; subst. cbn [fst snd] in Hk2, Hw2.
+    cbn [opts_enc]. rewrite <- app_assoc.
+    rewrite ed_it_next_opt by lia. cbn [eh_suf eh_pos].
+    rewrite opt_parse_enc by lia.
+    set (dn := k2 - n). set (R := opts_enc k2 l3 ++ PA).
+    replace (len TA + len (opts_enc 0 l1) + len X - (len TA + len (opts_enc 0 l1)))
+      with (len X) by lia.
+    assert (Hsh : negb (d + dn <? 269) && (dn <? 13) && (len X <? 2) = false).
+    { destruct (d + dn <? 269) eqn:E1; [reflexivity|]. destruct (dn <? 13) eqn:E2; [|reflexivity].
+      pose proof (ed_opt_enc_len2 d w ltac:(lia)) as H2. fold X in H2. cbn [negb andb]. lia. }
+    rewrite Hsh. cbv beta iota zeta.
+    replace (opt_enc dn w2 ++ R) with (opt_hdr dn (len w2) ++ w2 ++ R)
+      by (unfold opt_enc; rewrite <- app_assoc; reflexivity).
+    assert (Hnat : Z.to_nat (len X) = length X) by (unfold len; lia).
+    rewrite Hnat.
+    destruct (ed_patch_remove_ok d dn (len w2) X (w2 ++ R) ltac:(lia) ltac:(lia) ltac:(lia)
+                ltac:(pose proof (len_nonneg w2); lia) HX1
+                ltac:(intros; apply ed_opt_enc_len2; assumption))
+      as (X' & HP & HX').
+    rewrite HP. cbv beta iota zeta.
+    set (Y := opt_hdr (d + dn) (len w2) ++ w2 ++ R).
+    assert (HY : len (X ++ opt_hdr dn (len w2) ++ w2 ++ R) + 0 - len X' = len Y).
+    { subst Y. rewrite !len_app, !ed_opt_hdr_len. lia. }
+    rewrite HY.
+    destruct (ed_move_down X' Y) as (M & HM & HT). rewrite HM, HT.
+    f_equal. f_equal.
+    change (ed_set_buf (ed_of_pdu q) ((TA ++ opts_enc 0 l1) ++ Y)
+              (ed_shift_data (ed_of_pdu q) (0 - len X')))
+      with (ed_set_maxopt (ed_set_buf (ed_of_pdu q) ((TA ++ opts_enc 0 l1) ++ Y)
+              (ed_shift_data (ed_of_pdu q) (0 - len X'))) (eb_maxopt (ed_of_pdu q))).
+    apply ed_of_pdu_set_opts'.
+    + rewrite ed_opts_enc_app. cbn [opts_enc]. fold p1 TA PA. subst Y R.
+      replace (d + dn) with (k2 - p1) by (subst d dn; lia).
+      unfold opt_enc. rewrite <- !app_assoc. reflexivity.
+    + rewrite ed_shift_data_of_pdu. destruct (m_payload (p_msg q)); [reflexivity|].
+      rewrite Hbuf. cbn [opts_enc]. fold dn.
+      replace (opt_enc dn w2) with (opt_hdr dn (len w2) ++ w2) by reflexivity. subst Y R.
+      rewrite !len_app, !ed_opt_hdr_len. rewrite !len_app, !ed_opt_hdr_len in HY. lia.
+    + rewrite ed_maxopt_of_pdu, Ho. apply ed_last_num_insert_mid.
+Qed.
